@@ -3,7 +3,7 @@ import TunnoxModel.Spec.C10
 /-!
 Line protocol for C10.
 
-  st  <tail> rw <0|1> me <hex> ev <n> <event>*n ch <k> <size>*k rd <m> <size>*m
+  st  <tail> rw <0|1> [tk <nil | n (<keyhex> <a|c>)*n> pre <m>] me <hex> ev <n> <event>*n ch <k> <size>*k rd <m> <size>*m
         event:  w <len> <seed> | cw | cl | f <tidhex> <ty> <len> <seed>
       obs:  wr <k> (ok:<n>|closed|err:<n>)*k rd <j> (x:<n>|d:<hex>|eof|err:<kind>|fuel)*j rb <0|1> wb <0|1>
             (x:<n> = the next n bytes of the case's reference stream, see `refStream`)
@@ -12,6 +12,8 @@ Line protocol for C10.
   rt  <tail> fr <n> (<idhex> <ty> <len> <seed>)*n ch <k> <size>*k
       obs:  acc <n> (0|1)*n fr <m> (<idhex> <ty> <datahex>)*m stop <kind> left <n> alloc <a>
 
+  pl  <same tokens as st>   the first <pre> events are residual frames on an idle pooled connection
+      obs:  reused <0|1> <st observation of the remaining events>
   fw  me <hex> up <len> <seed> down <len> <seed> cs <k> <size>*k
       obs:  up <hex> down <hex> done <0|1>
 
@@ -67,23 +69,60 @@ def parseEvents : Nat → List String → Option (List Ev × List String)
     pure (.inject tid ty (genBytes l s) :: r, ts')
   | _, _ => none
 
+/-- `<keyhex> <a|c>` pairs of the scripted tracker double: the string `IsTunnelClosed` is asked about,
+and whether that tunnel is closed (`c`) or still active (`a`); unlisted strings are unknown (not closed). -/
+def parseTrk : Nat → List String → Option (List (Bytes × Bool) × List String)
+  | 0, ts => some ([], ts)
+  | n + 1, k :: st :: ts => do
+    let k ← bytesOfHex k
+    if st != "a" && st != "c" then none
+    let (r, ts') ← parseTrk n ts
+    pure ((k, st == "c") :: r, ts')
+  | _, _ => none
+
+def trackerOf (tbl : Option (List (Bytes × Bool))) : Tracker :=
+  tbl.map (fun t => fun s => t.any (fun e => e.1 == s && e.2))
+
 structure StCase where
   tail : Tail
   rw : Bool
+  trk : Option (List (Bytes × Bool))   -- none = NewFrameStream, some = NewFrameStreamWithTracker
+  pre : Nat
   me : Bytes
   evs : List Ev
   chunks : List Nat
   reads : List Nat
 
-def parseSt : List String → Option StCase
-  | tl :: "rw" :: rw :: "me" :: me :: "ev" :: n :: ts => do
-    let tail ← tailOfString tl
+def parseStRest (tail : Tail) (rw : Bool) (trk : Option (List (Bytes × Bool))) (pre : Nat) : List String → Option StCase
+  | "me" :: me :: "ev" :: n :: ts => do
     let me ← bytesOfHex me
     let n ← n.toNat?
     let (evs, ts) ← parseEvents n ts
     let (ch, ts) ← parseSizes "ch" ts
     let (rd, _) ← parseSizes "rd" ts
-    pure ⟨tail, rw == "1", me, evs, ch, rd⟩
+    pure ⟨tail, rw, trk, pre, me, evs, ch, rd⟩
+  | _ => none
+
+/-- `tk nil | tk <n> (<keyhex> <a|c>)*n`, then `pre <m>` (the receiving stream is created only after the
+first `m` events are on the connection — pure timing, invisible to the model: a `Src` holds all bytes
+that will ever arrive), then the rest.  Without a `tk` segment: `NewFrameStream`, `pre 0`. -/
+def parseSt : List String → Option StCase
+  | tl :: "rw" :: rw :: "tk" :: "nil" :: "pre" :: m :: ts => do
+    let tail ← tailOfString tl
+    let m ← m.toNat?
+    parseStRest tail (rw == "1") none m ts
+  | tl :: "rw" :: rw :: "tk" :: n :: ts => do
+    let tail ← tailOfString tl
+    let n ← n.toNat?
+    let (tbl, ts) ← parseTrk n ts
+    match ts with
+    | "pre" :: m :: ts => do
+      let m ← m.toNat?
+      parseStRest tail (rw == "1") (some tbl) m ts
+    | _ => none
+  | tl :: "rw" :: rw :: ts => do
+    let tail ← tailOfString tl
+    parseStRest tail (rw == "1") none 0 ts
   | _ => none
 
 def parseFramesGen : Nat → List String → Option (List Frame × List String)
@@ -212,7 +251,11 @@ def cutWire (sizes : List Nat) (b : Bytes) : List Bytes :=
   chunkBy (sizes ++ List.replicate (b.length / 4096 + 1) 4096) b
 
 def modelSt (c : StCase) : StObs :=
-  runStream c.me c.evs (cutWire c.chunks) c.tail c.rw c.reads
+  runStream (trackerOf c.trk) c.me c.evs (cutWire c.chunks) c.tail c.rw c.reads
+
+/-- `pl`: the first `pre` events are the residual frames on the idle pooled connection. -/
+def modelPl (c : StCase) : PlObs :=
+  runPool (trackerOf c.trk) c.me (c.evs.take c.pre) (c.evs.drop c.pre) (cutWire c.chunks) c.tail c.rw c.reads
 
 structure DecCase where
   tail : Tail
@@ -287,6 +330,12 @@ def parseFwObs : List String → Option FwObs
 
 def runModel (ts : List String) : String :=
   match ts with
+  | "pl" :: rest =>
+    match parseSt rest with
+    | some c =>
+      let o := modelPl c
+      s!"reused {if o.reused then 1 else 0} " ++ stObsStr c.me (c.evs.drop c.pre) o.st
+    | none => "bad-case"
   | "fw" :: rest =>
     match parseFw rest with
     | some c => fwObsStr (runForward c.me (chunkBy c.cs c.up) c.down)
@@ -308,6 +357,15 @@ def runModel (ts : List String) : String :=
 /-- The theorem's predicate on an observation; anything unparsable (panic, timeout, …) is `false`. -/
 def runHolds (caseToks obsToks : List String) : String :=
   match caseToks with
+  | "pl" :: rest =>
+    match parseSt rest, obsToks with
+    | some c, "reused" :: b :: ots =>
+      if b != "0" && b != "1" then "false" else
+      match parseStObs (refStream c.me (c.evs.drop c.pre)) ots with
+      | some o => boolStr (holdsStream c.me (c.evs.drop c.pre) c.tail c.reads o)
+      | none => "false"
+    | some _, _ => "false"
+    | none, _ => "bad-case"
   | "fw" :: rest =>
     match parseFw rest, parseFwObs obsToks with
     | some c, some o => boolStr (holdsFw c.up c.down o)
